@@ -63,7 +63,7 @@ theorem C16_copy_unset (E : Ext) (info : PaneInfo) (c : String) (fs : List (Stri
 theorem C16_copy_runs_hook (E : Ext) (info : PaneInfo) (c : String) (fs : List (String × Val)) (set : List String)
     (h : String) (e : Exc)
     (hall : info.fields.find? (fun f => !fs.any (·.1 == f.name)) = none) (hh : info.hook = some h)
-    (he : ∀ xs, E.hook h xs = .error e) :
+    (he : ∀ xs st, E.hook h xs st = .error e) :
     copyM E info (.obj c fs set) = .raises e := by
   simp only [copyM, hall, fromDictUnchecked, runHook, hh, he]
 
